@@ -31,7 +31,7 @@ var c04 = core.Register(&core.Prop{
 	Shards: func(tier string) int { return pickTier(tier, 8, 16) },
 	Floors: func(c map[string]int64, tier string) []string {
 		var out []string
-		for _, k := range []string{"op:+", "op:-", "op:*", "op:/", "op:%", "rounded_results", "exact_ties", "chain_cases", "data_float_cases", "data_int_cases", "handback_exact_domain", "handback_ulp_domain", "host_received"} {
+		for _, k := range []string{"op:+", "op:-", "op:*", "op:/", "op:%", "rounded_results", "exact_ties", "chain_cases", "minimal_parentheses_chains", "disturbers_evaluated", "data_float_cases", "data_int_cases", "handback_exact_domain", "handback_ulp_domain", "host_received"} {
 			if c[k] == 0 {
 				out = append(out, "coverage floor: no "+k)
 			}
@@ -46,6 +46,23 @@ type AExpr struct {
 	Op  string `json:"op,omitempty"`
 	L   *AExpr `json:"l,omitempty"`
 	R   *AExpr `json:"r,omitempty"`
+}
+
+var aPrec = map[string]int{"+": 9, "-": 9, "*": 10, "/": 10, "%": 10}
+
+// MinSrc prints with the parentheses precedence and left associativity require, and no others.
+func (e *AExpr) MinSrc() string {
+	if e.Op == "" {
+		return e.Src()
+	}
+	l, r := e.L.MinSrc(), e.R.MinSrc()
+	if e.L.Op != "" && aPrec[e.L.Op] < aPrec[e.Op] {
+		l = "(" + l + ")"
+	}
+	if e.R.Op != "" && aPrec[e.R.Op] <= aPrec[e.Op] {
+		r = "(" + r + ")"
+	}
+	return l + " " + e.Op + " " + r
 }
 
 func (e *AExpr) Src() string {
@@ -152,6 +169,11 @@ func evalArray1(src string, data map[string]interface{}) (interface{}, error, bo
 	var v interface{}
 	var rerr error
 	panicked, pv := core.Call(func() { v, rerr = r.Resolve(context.Background(), sc.Expression) })
+	if !panicked && rerr == nil {
+		if e2 := secondEvaluation(sc, src, context.Background(), data, outcome(v, nil, false, nil)); e2 != nil {
+			return nil, e2, false, nil
+		}
+	}
 	return v, rerr, panicked, pv
 }
 
@@ -171,6 +193,13 @@ var c04Arith = core.Mon(c04, "arith-exact", func(w *core.W, e *AExpr) {
 	if m.Skip != "" {
 		w.Skip(strings.SplitN(m.Skip, " ", 3)[0] + "-" + strings.SplitN(m.Skip+" x", " ", 3)[1])
 		return
+	}
+	if e.Op != "" && (e.L.Op != "" || e.R.Op != "") && len(e.Lit)%2 == 0 {
+		// chains are also written the way people write them: a*b + c, without redundant parentheses
+		if w.Counter("chain_cases")%2 == 1 {
+			src = "[" + e.MinSrc() + "]"
+			w.Count("minimal_parentheses_chains")
+		}
 	}
 	v, err, panicked, pv := evalArray1(src, nil)
 	if panicked {
@@ -457,6 +486,14 @@ var arithOps = []string{"+", "-", "*", "/", "%"}
 
 func init() { c04.Run = runC04 }
 
+// c04Disturb evaluates formulas that use other rounding modes and contexts; arithmetic afterwards must be unaffected.
+var c04Disturbers = []string{"toInt(7.9)", "round(2.5)", "roundBank(3.5)", "floor(-2.5)", "ceil(2.1)", "sqrt(2)", "exp(1)", "ln(10)", "log(1000)", "toInt('12.7')", "round(-0.5) + toInt(-7.9)", "abs(-3) % 2", "max(1, 2.5)", "1 / 3", "~5 & 3"}
+
+func c04Disturb(w *core.W, i int) {
+	evalArray1(c04Disturbers[i%len(c04Disturbers)], nil)
+	w.Count("disturbers_evaluated")
+}
+
 func runC04(w *core.W) {
 	r := w.RNG("pairs")
 	sample := func(kind string, e *AExpr, i int) {
@@ -467,6 +504,9 @@ func runC04(w *core.W) {
 	// 1. random pairs
 	for i, n := 0, w.Pick(120000, 1500000); i < n; i++ {
 		e := &AExpr{Op: arithOps[i%5], L: &AExpr{Lit: randOperand(r)}, R: &AExpr{Lit: randOperand(r)}}
+		if i%7 == 0 {
+			c04Disturb(w, i/7)
+		}
 		c04Arith(w, e)
 		sample("pair", e, i)
 	}
@@ -524,6 +564,9 @@ func runC04(w *core.W) {
 			b = []string{"", "-"}[r.Intn(2)] + []string{"1", "2", "0.1", "1e-30", "9", "1e30"}[r.Intn(6)]
 		}
 		e := &AExpr{Op: op, L: &AExpr{Lit: a}, R: &AExpr{Lit: b}}
+		if i%3 == 0 {
+			c04Disturb(w, i/3)
+		}
 		c04Arith(w, e)
 		sample("boundary", e, i)
 	}
@@ -568,8 +611,11 @@ func runC04(w *core.W) {
 	}
 	for i, n := 0, w.Pick(60000, 900000); i < n; i++ {
 		e := build(2 + r.Intn(3))
-		c04Arith(w, e)
+		if i%5 == 0 {
+			c04Disturb(w, i/5)
+		}
 		w.Count("chain_cases")
+		c04Arith(w, e)
 		sample("chain", e, i)
 		if i%4 == 0 {
 			c04Handback(w, e)
